@@ -66,6 +66,7 @@ class Ghost:
         self.loop = None
         self.vc = VCV()
         self.stash = {}
+        self.witnesses = []  # (dict ident, key, value) materialised as quantifier witnesses (pyvc/quant.py)
         self.abstract_memo = {}
         self.replaying = False
         self.input_cache = {}
@@ -628,6 +629,11 @@ class Ghost:
         from .loopcut import frame_violations
 
         return ListV(frame_violations(self.I, args[0][1]))
+
+    def vc_witnesses(self, args, kwargs, node):
+        """vc.witnesses(): [(key, value)] of the entries of unbounded dicts that any()/all()
+        materialised as witness / counterexample on this path, outermost first"""
+        return ListV([(k, v) for _, k, v in self.witnesses])
 
     def vc_fields(self, args, kwargs, node):
         """vc.fields(obj): attribute name -> value of an instance, as a dict (frames: 'nothing
